@@ -20,3 +20,13 @@ Lemma tie_ssh2_block_test : forall paylen padlen, (4 + 1 + paylen + padlen) mod 
 Proof. reflexivity. Qed.
 Lemma tie_ssh1_block_test : forall padlen plen, (padlen + plen) mod 8 = src_ssh1_check_size padlen plen mod src_block_size.
 Proof. reflexivity. Qed.
+
+(* SSH1_CRC32, translated from the current source (T1c): the statement block of calc()'s loop is the model's byte step over the table the
+   constructor builds, and the body of the constructor's inner loop is one step of the model's bit-serial register.  With CrcProofs (table = 8 bit
+   steps per entry, byte step = 8 bit steps) the checksum theorems are about these statements. *)
+From VModel Require Import Wire.
+Lemma tie_crc_step : forall crc b, src_crc_step crc_table crc b = crc_step crc b.
+Proof. reflexivity. Qed.
+Lemma tie_crc_bit_step : forall k crc n,
+  crc_bits (S k) crc n = crc_bits k (fst (src_crc_bit_step crc n)) (snd (src_crc_bit_step crc n)).
+Proof. reflexivity. Qed.
